@@ -172,6 +172,10 @@ func init() {
 			m.pushFrame(fv.fn, nil, fv.env, res, fkCatch)
 			return pushedFrame, true
 		},
+		"vConcurrently": func(m *Machine, f *Frame, a []value) (value, bool) {
+			fv := a[0].(Func)
+			return m.callCont(fv.fn, nil, fv.env, func(m *Machine, r value) value { return nil }), true
+		},
 		"vDeepEqual": func(m *Machine, f *Frame, a []value) (value, bool) {
 			return m.deepEqual(a[0], a[1], 0, map[[2]*Object]bool{}), true
 		},
